@@ -1,5 +1,6 @@
-(* Runs of the closure/backfill model: the refuting witnesses for "every inherited field has the inherited
-   type" and for "every interface is listed once", and a run on which everything holds (non-vacuity). *)
+(* Runs of the closure/backfill model: the refuting witness for "every inherited field has the inherited
+   type", the run that refuted "every interface is listed once" before repair fix2-c32-1 (under the old and the
+   repaired object_type_definition), and a run on which everything holds (non-vacuity). *)
 From ApolloVerif Require Import Base.Chars Ast.Ast Smith.Closure Smith.ClosureProofs.
 
 Definition cx_A1 : str := [65;49]. Definition cx_A3 : str := [65;51]. Definition cx_A5 : str := [65;53].
@@ -29,17 +30,28 @@ Lemma cx_conflict_refutes :
     cl_parents_conflict (cls_ifaces st) (cls_ifaces st) = true.
 Proof. eexists. split; [vm_compute; reflexivity|]. vm_compute. intuition. Qed.
 
-(* interface A1 { a: T }   type O implements A1 { y: T }   extend type O implements A1 { f: T } *)
-Definition cx_dup_run : option cl_state :=
+(* interface A1 { a: T }   type O implements A1 { y: T }   extend type O { f: T }, the extension drawing the
+   candidate A1 again: `add` is cl_add_object (the code as it is) or cl_add_object_old (before repair fix2-c32-1) *)
+Definition cx_dup_run_with (add : cl_state -> bool -> str -> list str -> list cl_field -> option cl_state)
+  : option cl_state :=
   cx_bind (cl_add_interface cl_init false cx_A1 [] [cx_fld cx_a cx_T]) (fun s1 =>
   cx_bind (cl_backfill_interfaces [cx_A1] s1) (fun s2 =>
-  cx_bind (cl_add_object s2 false cx_O [cx_A1] [cx_fld cx_y cx_T]) (fun s3 =>
-  cx_bind (cl_add_object s3 true cx_O [cx_A1] [cx_fld cx_f cx_T]) (fun s4 =>
+  cx_bind (add s2 false cx_O [cx_A1] [cx_fld cx_y cx_T]) (fun s3 =>
+  cx_bind (add s3 true cx_O [cx_A1] [cx_fld cx_f cx_T]) (fun s4 =>
   cl_backfill_objects s4)))).
+Definition cx_dup_run : option cl_state := cx_dup_run_with cl_add_object.
+Definition cx_dup_run_old : option cl_state := cx_dup_run_with cl_add_object_old.
 
-Lemma cx_dup_refutes :
-  exists st, cx_dup_run = Some st /\ cl_declared (cls_objs st) cx_O = [cx_A1; cx_A1] /\
+(* before the repair the extension repeated A1 *)
+Lemma cx_dup_old_refutes :
+  exists st, cx_dup_run_old = Some st /\ cl_declared (cls_objs st) cx_O = [cx_A1; cx_A1] /\
              cl_dup_implements (cls_objs st) = true.
+Proof. eexists. split; [vm_compute; reflexivity|]. vm_compute. auto. Qed.
+
+(* the same draws now give `extend type O { f: T }` *)
+Lemma cx_dup_run_facts :
+  exists st, cx_dup_run = Some st /\ cl_declared (cls_objs st) cx_O = [cx_A1] /\
+             cl_dup_implements (cls_objs st) = false.
 Proof. eexists. split; [vm_compute; reflexivity|]. vm_compute. auto. Qed.
 
 (* interface A1 { a: T }  interface A3 implements A1 { f: T! }  interface A5 implements A3 {}  type O implements A5 *)
